@@ -61,3 +61,10 @@ package domutil
 //@   requires node != nil
 //@   fresh_assigns maps
 //@   ensures implies(len(ancestorTagNames) == 1, result == hasAncestorTag(node, old(ancestorTagNames[0])))
+
+// Contains: trusted summary (parent-chain loop not verified): the ghost ancestor-or-self relation.
+//@ func Contains(node, child)
+//@   trusted
+//@   pure
+//@   reads html.Node.Parent
+//@   ensures result == (node != nil && child != nil && isAnc(node, child))
